@@ -19,6 +19,7 @@ type guardSpec struct {
 	mutex    string   // mutex field name
 	fields   []string // guarded fields
 	helpers  []string // methods documented as "callers must hold the lock"
+	optional []string // guarded fields that need not exist (introduced by a repair)
 	// exemptions: function short name -> reason (one named construct, one reason)
 	exempt map[string]string
 }
@@ -248,6 +249,11 @@ func (c *Ctx) checkGuard(rule string, g guardSpec) {
 			continue
 		}
 		guarded[fv] = f
+	}
+	for _, f := range g.optional {
+		if fv := p.Field(g.rel, g.typ, f); fv != nil {
+			guarded[fv] = f
+		}
 	}
 	lockID := fieldName(n, fieldIndex(n, g.mutex))
 	helper := map[string]bool{}
